@@ -284,6 +284,11 @@ Definition wf_theta (p : program) (th : list Q) : bool :=
   forallb (fun x => Qle_bool 0 x && Qle_bool x 1) th &&
   forallb (fun c => Qle_bool (heads_sum th c) 1) p.
 
+(* every clause except: exactly one tunable head next to constant heads of non-zero mass
+   (_normalize_weights skips groups of one head, so that head is not capped at 1 - constants) *)
+Definition ad_ok (c : clause) : bool :=
+  is_det c || negb (length (tun_of c) =? 1)%nat || Qeq_bool (fixed_sum c) 0.
+
 (* ------------------------------------------------------------------ comparison helpers for the tie *)
 Definition qclose (eps a b : Q) : bool := Qle_bool (a - b) eps && Qle_bool (b - a) eps.
 Fixpoint qclose_list (eps : Q) (a b : list Q) : bool :=
